@@ -411,15 +411,29 @@ def run(ctx):
             unc = all(any((x.get("callee") or {}).get("nm") == st for x in q.calls()) for q in allp)
             res.check(unc, "C13-R1", "%s::setData:every-path:%s" % (cls.replace(NS, ""), st), f.loc, "%s is called on every path" % st,
                       "%s::setData does not call %s on every path" % (cls, st))
-        hdr_calls = [c for c in f.calls() if "obj" in c and strip_all_casts(c["obj"]).get("k") == "call" and
-                     (strip_all_casts(c["obj"]).get("callee") or {}).get("nm") == "getHeader"]
+        def on_header(c):
+            # the object is getHeader() — directly, or through a local that caches the pointer after the resize
+            o = strip_all_casts(facts.expand(f, c["obj"])) if "obj" in c else {}
+            return o.get("k") == "call" and (o.get("callee") or {}).get("nm") == "getHeader"
+        hdr_calls = [c for c in f.calls() if on_header(c)]
+        # a cached header pointer must be taken after the buffer was resized (resize may reallocate)
+        for c in hdr_calls:
+            o = strip_all_casts(c["obj"])
+            if o.get("k") == "ref" and o.get("dk") == "local":
+                dn = [x for x in f.nodes() if x.get("k") == "decl" and any(v.get("decl") == o["decl"] for v in x.get("vars", []))]
+                sz = [x for x in f.calls() if (x.get("callee") or {}).get("nm") == "resize" or (callee_name(x) or "").endswith("Payload::setData")]
+                cfg = f.cfg
+                fresh = bool(dn) and all(cfg.block_for(x) == cfg.block_for(dn[0]) and cfg.pos_of[x["id"]] < cfg.pos_of[dn[0]["id"]] or
+                                         (cfg.block_for(x) != cfg.block_for(dn[0]) and cfg.dominates(cfg.block_for(x), cfg.block_for(dn[0]))) for x in sz)
+                res.check(fresh, "C13-R1", "%s::setData:header-pointer-fresh" % cls.replace(NS, ""), c.get("loc"), "cached header pointer is taken after the buffer is sized",
+                          "%s::setData writes header fields through a pointer taken before the buffer was resized (the resize may move the buffer)" % cls)
         names = sorted((c.get("callee") or {}).get("nm") for c in hdr_calls)
         res.check(names == sorted(setters), "C13-R1", "%s::setData:header-writes" % cls.replace(NS, ""), f.loc,
                   "header setters called: %s (other header fields untouched)" % names,
                   "%s::setData calls header setters %s, expected exactly %s" % (cls, names, sorted(setters)))
         for c in hdr_calls:
             nm = (c.get("callee") or {}).get("nm")
-            a = strip_all_casts(c["args"][0])
+            a = strip_all_casts(facts.expand(f, c["args"][0]))
             if nm == "setDataLength":
                 res.check(canon(a) == lenp, "C13-R1", "%s::setData:%s" % (cls.replace(NS, ""), nm), c.get("loc"), "length field := the length parameter",
                           "the length field is set to %s, the copied length is %s" % (canon(a), lenp))
